@@ -27,7 +27,7 @@ META = {
     "property": "C01",
     "proof_modules": ["PyodaProofs.C01", "PyodaProofs.C01Lemmas", "PyodaProofs.C01Instances", "PyodaProofs.C01Islamic",
                       "PyodaProofs.C01Persian", "PyodaProofs.C01PersianSimple", "PyodaProofs.C01PersianArithmetic",
-                      "PyodaProofs.C01IsoFast", "PyodaProofs.C01WfCheck"],
+                      "PyodaProofs.C01IsoFast", "PyodaProofs.C01WfCheck", "PyodaProofs.GenAgreeC01"],
     "drivers": ["drv_calendar"],
     "theorems": [
         "Pyoda.C01.getYear_spec", "Pyoda.C01.days_ymd_days", "Pyoda.C01.ymd_days_ymd", "Pyoda.C01.strict_mono",
@@ -40,6 +40,25 @@ META = {
         "Pyoda.C01.gregorian_days_ymd_days", "Pyoda.C01.gregorian_ymd_days_ymd", "Pyoda.C01.gregorian_out_of_range_rejected",
         "Pyoda.C01.julian_days_ymd_days", "Pyoda.C01.coptic_days_ymd_days",
         "Pyoda.C01.greg_daysOfYmdFast_eq", "Pyoda.C01.greg_ymdOfDaysFast_eq", "Pyoda.C01.greg_validate_eq",
+        # agreement of the definitions generated from the Python source (tools/py2lean.py) with the model
+        "Pyoda.GenAgree.C01.gen_Greg_isGregorianLeapYear_eq", "Pyoda.GenAgree.C01.gen_Greg_isLeap_eq",
+        "Pyoda.GenAgree.C01.gen_Greg_len_eq", "Pyoda.GenAgree.C01.gen_Greg_start_eq",
+        "Pyoda.GenAgree.C01.gen_Greg_validate_eq", "Pyoda.GenAgree.C01.gen_Greg_validateYmd_eq",
+        "Pyoda.GenAgree.C01.gen_GJ_len_eq", "Pyoda.GenAgree.C01.gen_GJ_dim_eq",
+        "Pyoda.GenAgree.C01.gen_GJ_toMonth_eq", "Pyoda.GenAgree.C01.gen_GJ_split_eq",
+        "Pyoda.GenAgree.C01.gen_Greg_dim_eq", "Pyoda.GenAgree.C01.gen_Greg_toMonth_eq",
+        "Pyoda.GenAgree.C01.gen_Greg_split_eq", "Pyoda.GenAgree.C01.gen_Jul_isLeap_eq",
+        "Pyoda.GenAgree.C01.gen_Jul_start_eq", "Pyoda.GenAgree.C01.gen_Jul_len_eq",
+        "Pyoda.GenAgree.C01.gen_Jul_dim_eq", "Pyoda.GenAgree.C01.gen_Jul_toMonth_eq",
+        "Pyoda.GenAgree.C01.gen_Jul_split_eq", "Pyoda.GenAgree.C01.gen_Copt_isLeap_eq",
+        "Pyoda.GenAgree.C01.gen_Copt_len_eq", "Pyoda.GenAgree.C01.gen_Copt_dim_eq",
+        "Pyoda.GenAgree.C01.gen_Copt_toMonth_eq", "Pyoda.GenAgree.C01.gen_Copt_split_eq",
+        "Pyoda.GenAgree.C01.gen_Copt_start_eq", "Pyoda.GenAgree.C01.gen_Isl_len_eq",
+        "Pyoda.GenAgree.C01.gen_Isl_len_model", "Pyoda.GenAgree.C01.gen_Isl_dim_eq",
+        "Pyoda.GenAgree.C01.gen_Isl_toMonth_eq", "Pyoda.GenAgree.C01.gen_Isl_split_eq",
+        "Pyoda.GenAgree.C01.gen_Pers_len_eq", "Pyoda.GenAgree.C01.gen_Pers_dim_eq",
+        "Pyoda.GenAgree.C01.gen_Pers_toMonth_eq", "Pyoda.GenAgree.C01.gen_Pers_split_eq",
+        "Pyoda.GenAgree.C01.gen_Pers_leapArithmetic_eq",
     ],
     "trusted_base": [
         "CPython int arithmetic; _towards_zero_division exact for the (< 10^9) operands of the calendar code",
@@ -49,6 +68,19 @@ META = {
         "discharged by EVALUATION of the executable checker wfCheck on the compiled driver (op cal.wf, every run, all years; "
         "the Lean compiler is trusted for that step) plus the proved theorem wfCheck_sound : wfCheck c = true -> WF c, instead "
         "of a symbolic instance; the other 14 ordinals have symbolic instances (kernel-checked) and are evaluated as well",
+        "translator tools/py2lean.py (second tie, besides the correspondence suites): the leap rules, year starts, year and month "
+        "lengths, month starts and day-of-year splits of the Gregorian, Julian, Coptic/fixed-month, tabular Islamic and Persian "
+        "calculators listed under C01 in tools/py2lean_targets.py are re-translated from the current Python source on each run into "
+        "lean/PyodaGen/C01.lean and proved equal to the hand-written calendar model (PyodaProofs/GenAgreeC01.lean; shared by C01 and C02). "
+        "Trusted there: Python int = Lean Int; // and % = Int.fdiv/Int.fmod for non-zero constant divisors; >> by a constant = "
+        "Int.shiftRight; x & (2^k-1) = x mod 2^k; raising calls bound left-to-right in Except PyExc; if-statements by tail duplication; "
+        "virtual calls self._is_leap_year of shared base classes are function parameters instantiated with the generated leap rule of "
+        "each calculator; class-level tables built by a static function at class creation are evaluated from the source by the "
+        "translator's small interpreter (for/range/append/yield) and read with pyIndex (IndexError outside, negative index wraps); "
+        "helpers _towards_zero_division -> pyTdiv, _csharp_modulo -> csharpMod, _check_argument_range -> checkRange, "
+        "_YearMonthDay._ctor -> a plain triple (packing: pack_unpack). Not translated (correspondence only): the year search _get_year "
+        "(while loops), the 1900-2100 table paths of the Gregorian calculator (tables filled in __init__), the Islamic and Persian "
+        "simple/astronomical leap rules (bit tests), Islamic year starts (for loop), Hebrew, Um Al Qura, Badi",
     ],
     "partial": [],
     "rule": "year tables: every year of every calendar (exhaustive); days: first/last days of every year, sampled month "
